@@ -55,7 +55,7 @@ macro "andes_trig" : tactic =>
 /-- the portfolio for "generated expression ≡ declared expression"; every member must CLOSE the goal
 (`ring1`, never `ring`, whose `ring_nf` fall-back can leave goals) -/
 macro "andes_equiv" : tactic =>
-  `(tactic| (andes_unfold
+  `(tactic| first | rfl | (andes_unfold <;>
              first
               | rfl
               | ring1
